@@ -209,6 +209,16 @@ def apply_unary(S, x, name, args, inplace=False):
         return x.sum()
     if name == "to_dense":
         return x.to_dense()
+    if name == "item":
+        return x.item()
+    if name == "max":
+        return x.max()
+    if name == "min":
+        return x.min()
+    if name == "abs":
+        return x.abs()
+    if name == "get_sparsity":
+        return x.get_sparsity()
     if name == "trace":
         return x.trace()
     if name == "einsum":
@@ -250,5 +260,5 @@ def apply_binary(S, x, y, name, args):
         z += y
         return z
     if name == "allclose":
-        return x.allclose(y)
+        return bool(x.allclose(y))
     raise ValueError(name)
